@@ -172,11 +172,13 @@ def observe_vgamma(ts, mu, **kw):
     samples_exact = bool(np.all(npost["mean"][samples] == ts.nodes_time[samples]) and np.all(npost["variance"][samples] == 0))
     phased = kw.get("singletons_phased")
     phased = True if phased is None else phased
+    moves_ok = unphased_moves_ok(ts, call.ts)
     key_in = sorted(zip(ts.mutations_site.tolist(), ts.mutations_node.tolist()))
     key_out = sorted(zip(call.ts.mutations_site.tolist(), call.ts.mutations_node.tolist()))
     ev = {"max_iterations": int(n_it), "iters": iters, "phases": phases, "expected_phases": expected,
           "final": {"node_proper": node_proper, "node_capped": node_capped, "mut_ok": mut_ok, "phase_ok": phase_ok,
                     "samples_exact": samples_exact, "phased_unmoved": (key_in == key_out) if phased else True,
+                    "unphased_moves_ok": moves_ok, "rephase_equal": True,
                     "n_unphased": int(np.sum(unph)), "n_mut_undefined": int(np.sum(undefined)),
                     "n_phase_nan": int(np.sum(np.isnan(ph)))}}
     return ev, call
@@ -249,3 +251,124 @@ def judge_ep(ctx, pid, checks, events, meta, label):
                                                             i["capped"], i["proper_or_never_updated"]])][:3] or ev["iters"][:1]
         ctx.violation(f"{pid}/{label}/{r['clause'].split(':')[0]}", {"event": slim, "meta": meta.get(r["tid"]), "checks": checks},
                       f"trace {r['tid']} rejected by EPTrace at clause '{r['clause']}'", subcheck=label)
+
+
+# ---------------------------------------------------------------------------------------
+# unphased singletons (C22 / C23)
+# ---------------------------------------------------------------------------------------
+
+def rephase(ts, rng, prob=0.5):
+    """Move each singleton (mutation above a sample node that belongs to a diploid individual)
+    to the individual's other node with probability `prob`."""
+    tables = ts.dump_tables()
+    node = tables.mutations.node.copy()
+    is_sample = (ts.nodes_flags & tskit.NODE_IS_SAMPLE) != 0
+    moved = 0
+    for m in range(ts.num_mutations):
+        u = node[m]
+        ind = ts.nodes_individual[u]
+        if is_sample[u] and ind != tskit.NULL:
+            nodes = ts.individual(ind).nodes
+            if len(nodes) == 2 and rng.random() < prob:
+                node[m] = nodes[0] if nodes[1] == u else nodes[1]
+                moved += 1
+    tables.mutations.node = node
+    tables.mutations.time = np.full_like(tables.mutations.time, tskit.UNKNOWN_TIME)
+    tables.mutations.parent = np.full_like(tables.mutations.parent, tskit.NULL)
+    tables.sort()
+    tables.build_index()
+    tables.compute_mutation_parents()
+    return tables.tree_sequence(), moved
+
+
+def observe_realloc(ts, mu, **kw):
+    """variational_gamma(singletons_phased=False) with the likelihood table snapshotted around
+    rescale(); returns (event-or-None, call)."""
+    import tsdate
+    from tsdate import variational
+
+    from . import record
+    EP = variational.ExpectationPropagation
+    o_resc = EP.rescale
+    snap = {}
+
+    def w_resc(self, *a, **k):
+        seg = k.get("rescale_segsites", False)
+        arr = self.edge_likelihoods if seg else self.sizebiased_likelihoods
+        snap["before"] = arr[:, 0].copy()
+        snap["seg"] = seg
+        r = o_resc(self, *a, **k)
+        snap["after"] = arr[:, 0].copy()
+        return r
+
+    EP.rescale = w_resc
+    try:
+        call = record.observed_call(tsdate.variational_gamma, ts, mutation_rate=mu, return_fit=True,
+                                    singletons_phased=False, **kw)
+    finally:
+        EP.rescale = o_resc
+    if not call.ok or "after" not in snap:
+        return None, call
+    fit = call.fit
+    U = 65536
+    blocks = (np.asarray(fit.block_edges) + 1).tolist()
+    sing = []
+    switched = 0
+    for m in np.flatnonzero(fit.mutation_blocks != tskit.NULL):
+        b = int(fit.mutation_blocks[m])
+        q = fit.mutation_phase[m]
+        if np.isnan(q):
+            continue
+        first = bool(fit.mutation_edges[m] == fit.block_edges[b, 0])
+        if not first:
+            switched += 1
+        sing.append({"b": b + 1, "first": first, "q": int(round(float(q) * U))})
+    ev = {"blocks": blocks, "sing": sing, "before": [int(round(x * U)) for x in snap["before"]],
+          "after": [int(round(x * U)) for x in snap["after"]], "n_switched": switched, "segsites": bool(snap["seg"])}
+    return ev, call
+
+
+def unphased_moves_ok(ts_in, ts_out):
+    """C22, first sentence: per site, the multiset of mutation nodes of the output can be obtained
+    from the input's by moving mutations between the two nodes of a diploid, contemporary
+    individual (and in no other way)."""
+    def canon(ts, u):
+        ind = ts_in.nodes_individual[u]
+        if ind != tskit.NULL:
+            nodes = ts_in.individual(ind).nodes
+            if len(nodes) == 2 and np.all(ts_in.nodes_time[nodes] == 0) and (ts_in.nodes_flags[u] & tskit.NODE_IS_SAMPLE):
+                return ("ind", int(ind))
+        return ("node", int(u))
+    a = sorted((int(s), canon(ts_in, u)) for s, u in zip(ts_in.mutations_site, ts_in.mutations_node))
+    b = sorted((int(s), canon(ts_out, u)) for s, u in zip(ts_out.mutations_site, ts_out.mutations_node))
+    return a == b
+
+
+def outputs_close(ts1, ts2, rtol=1e-6):
+    """node times, mutation times (per site, sorted) and mn/vr metadata agree to rtol"""
+    import json
+    if ts1.num_nodes != ts2.num_nodes or ts1.num_mutations != ts2.num_mutations:
+        return False, "shape"
+    if not np.allclose(ts1.nodes_time, ts2.nodes_time, rtol=rtol, atol=0):
+        return False, f"nodes_time max rel diff {np.max(np.abs(ts1.nodes_time - ts2.nodes_time) / np.maximum(ts1.nodes_time, 1e-300))}"
+    def per_site(ts):
+        out = {}
+        for m in ts.mutations():
+            md = m.metadata if isinstance(m.metadata, dict) else {}
+            out.setdefault(m.site, []).append((m.time, md.get("mn", np.nan), md.get("vr", np.nan)))
+        return {k: sorted(v) for k, v in out.items()}
+    p1, p2 = per_site(ts1), per_site(ts2)
+    for k in p1:
+        a, b = np.array(p1[k], float), np.array(p2.get(k, []), float)
+        if a.shape != b.shape or not np.allclose(a, b, rtol=rtol * 10, atol=0, equal_nan=True):
+            return False, f"mutations at site {k}: {a.tolist()} vs {b.tolist()}"
+    for n1, n2 in zip(ts1.nodes(), ts2.nodes()):
+        m1 = n1.metadata if isinstance(n1.metadata, dict) else {}
+        m2 = n2.metadata if isinstance(n2.metadata, dict) else {}
+        for key, tol in (("mn", rtol), ("vr", 2 * rtol)):
+            if (key in m1) != (key in m2):
+                return False, "metadata keys"
+            if key in m1 and not np.isclose(m1[key], m2[key], rtol=tol, atol=0):
+                return False, f"node {n1.id} {key}: {m1[key]} vs {m2[key]}"
+    del json
+    return True, ""
